@@ -141,7 +141,19 @@ pub fn sweep(ctx: &mut Ctx, tag: &str, title: &str, ops: OpMask, tx: &dyn Fn(&Di
                 ctx.adopt_trace(&d, &format!("{title}: {coord}"));
                 return viol(v.class, format!("{title}: {coord}: {msg}"));
             }
-            Ok(o) => {
+            Ok(mut o) => {
+                // finalize() called after a failed write and reporting Ok: its own writes (header, seek
+                // table, flush) must have failed too when the sink fails for good from that point on —
+                // then Ok is a success report without the output. After a transient failure, or on a
+                // full disk whose first bytes can still be overwritten, finalize's own work can
+                // legitimately succeed (the lost frame was reported by the write call): not judged.
+                if crate::world::FINALIZE_OK_AFTER_ERROR.with(|f| f.replace(false)) {
+                    if matches!(kind, HardKind::ErrorFrom | HardKind::WriteZero) && ben.is_none() {
+                        probe("c13_finalize_ok_after_permanent_failure");
+                    } else {
+                        o.ok = false;
+                    }
+                }
                 let fired = d.hard_fired() > 0;
                 ctx.extra_events += d.seq();
                 ctx.eval_fp(mix(d.fp(), o.ok as u64), fired);
@@ -242,7 +254,9 @@ fn tx_encode(ctx: &mut Ctx, ch: &Choices) -> R {
         _ => SinkMode::OwnedBuf(*ch.pick("c13.cap2", &[64usize, 1, 300, 8192])),
     };
     let declared = cfg.declare_total.then(|| total_for(kind, &pcm));
-    let title = format!("encode+finalize writer={kind:?} sink={mode:?}");
+    // one run in three: the caller goes on to finalize() after a write call failed
+    let fin_after_err = ch.draw("c13.finalize_after_error", 3) == 2;
+    let title = format!("encode+finalize writer={kind:?} sink={mode:?}{}", if fin_after_err { " (finalize() called even after a failed write)" } else { "" });
     ctx.describe(|| format!("{title} {} frames={} chunks={}", cfg.describe(), pcm.frames, short_vec(&chunks, 8)));
     ctx.api(13, mode_code(mode));
     let off = cfg.offset;
@@ -250,6 +264,7 @@ fn tx_encode(ctx: &mut Ctx, ch: &Choices) -> R {
         let file = d.create(vec![0xA5; off]);
         let f = d.open(file, Benign::none()).set_pos(off as u64);
         let mut nothing = || {};
+        crate::world::FINALIZE_AFTER_ERROR.with(|x| x.set(fin_after_err));
         let (ok, note) = match mode {
             SinkMode::Raw => {
                 let r = encode(f, &cfg, &pcm, kind, &chunks, declared, EndMode::Finalize, &[], &mut nothing);
@@ -267,6 +282,7 @@ fn tx_encode(ctx: &mut Ctx, ch: &Choices) -> R {
                 (r.is_ok(), format!("{r:?}"))
             }
         };
+        crate::world::FINALIZE_AFTER_ERROR.with(|x| x.set(false));
         Outcome {
             ok,
             out: vec![d.data(file)],
